@@ -526,6 +526,8 @@ def mon_C03(case):
         faulted = i > 0 and case.ops[i - 1].split(" ")[0] in ("fail", "crash") or (i > 1 and case.ops[i - 2].startswith("fail"))
         if acks and not ok:
             out.append((i, f"C03 publish to {t} by {act[0] if act else '?'} accepted although {why}"))
+        if acks and pre.store.get(t, {}).get("state") == 10:
+            out.append((i, f"C03 [susp-reload] publish to {t} accepted although the topic is suspended (the account of its owner or of a participant is)"))
         if ok and w[1] in case.logged_out(i):
             # the session has been logged out by the server: 401 is the answer to whatever it sends
             errs = [f for sid, f in ln.frames if sid == w[1] and f.startswith("ctrl ")]
